@@ -573,6 +573,18 @@ pub fn c02(o: &Opts, t: &mut Tracer) -> Value {
             for policy_same_host in [true, false] {
                 for via in [false, true] {
                     k += 1;
+                    // C13 says when the previous request's Authorization MAY be kept, not that it must be: only chains at whose end
+                    // it must be absent have a definite set of effective headers
+                    let ou: ureq_proto::http::Uri = ouri.parse().unwrap();
+                    let (ts, th) = match loc.parse::<ureq_proto::http::Uri>().ok().filter(|u| u.scheme_str().is_some()) {
+                        Some(u) => (u.scheme_str().unwrap().to_string(), u.host().unwrap_or("").to_string()),
+                        None if via => ("https".to_string(), "mid.test".to_string()),
+                        None => (ou.scheme_str().unwrap().to_string(), "h.test".to_string()),
+                    };
+                    let may_keep = policy_same_host && th == "h.test" && (ts == ou.scheme_str().unwrap() || ts == "https");
+                    if may_keep {
+                        continue;
+                    }
                     let mut hops: Vec<(u16, String)> = vec![];
                     if via {
                         hops.push((302, "https://mid.test/m".to_string()));
